@@ -26,6 +26,7 @@ but is designed to be extended with additional link statistics in the future.
 """
 import struct
 import time
+from threading import current_thread
 from threading import Event
 from threading import Thread
 
@@ -158,7 +159,9 @@ class Latency:
         """
         self._stop_event.set()
         if self._ping_thread_instance is not None:
-            self._ping_thread_instance.join()
+            # A link error can be reported from the ping thread itself
+            if self._ping_thread_instance is not current_thread():
+                self._ping_thread_instance.join()
             self._ping_thread_instance = None
 
     def _ping_thread(self, interval: float = 0.1) -> None:
